@@ -215,7 +215,7 @@ def compare(acc, src, benv, origin, node=None, tag=None):
             if o[0] != "V":
                 return None
             v = o[-1]
-            return list(v)[:2] if isinstance(v, (list, dict)) else None
+            return list(v)[:2] if isinstance(v, (list, dict, str, bytes)) else None
 
         try:
             m, ex_b = diag.localize_scoped(node, fails, elements)
